@@ -317,11 +317,13 @@ def nextSeq (db : DB) (day : Bytes) : Nat :=
   | [] => 1
   | (last, _) :: _ => if hasPrefix last.id day then last.seq + 1 else 1
 
-/-- one upload request: the Uploads row is committed first; the records only if every file indexes
-and no key constraint fails. Returns the new state, the id and whether the upload succeeded. -/
+/-- one upload request: the Uploads row is committed first (an id that already exists violates the
+primary key of Uploads: `NewUpload` fails and nothing changes); the records only if every file
+indexes and no key constraint fails. Returns the new state, the id and whether the upload succeeded. -/
 def processUpload (db : DB) (day user : Bytes) (files : List FileIn) : DB × Bytes × Bool :=
   let seq := nextSeq db day
   let id := day ++ [46] ++ natToDec seq
+  if db.uploads.any (·.id == id) then (db, id, false) else
   let db := { db with uploads := db.uploads ++ [⟨id, day, seq⟩] }
   match indexFiles { id := id } user 0 files with
   | none => (db, id, false)
